@@ -1,4 +1,347 @@
-/- C15 — property theorems (stub; filled in by the owning work package). -/
-import Rdm.Basic
+/-
+  C15 — criteria omission removes exactly the requested share, weakest first.
+  Property theorems only (helper lemmas: Rdm/Lemmas/BiasA*.lean).  The model is
+  Rdm/Model/Ordering.lean + Rdm/Model/BiasesA.lean, tied to the Go code bit-for-bit by the stages
+  `split`, `order`, `omission-apply` of harness/main/c15.go.
+-/
+import Rdm.Lemmas.BiasAOmission
+import Rdm.Lemmas.BiasAReduced
+import Rdm.Lemmas.BiasARoulette
+import Rdm.Lemmas.BiasACumulated
+import Rdm.Spec.C15
+set_option linter.unusedSectionVars false
+open Rdm Rdm.BiasA
 namespace Rdm.Props.C15
+variable {α : Type} [Num α]
+
+/-! ## count rule -/
+
+/-- the pivot is `⌊n·ratio⌋` clamped to `[min, max]` (definition of the model, over the rationals) -/
+theorem pivot_formula (c : SplitCond Rat) (n : Nat) :
+    c.pivot n = clampInt (Rat.floor (((n : Int) : Rat) * c.ratio)) c.min c.max := rfl
+
+/-- after validation the pivot lies in `[min, max]`, and equals `⌊n·ratio⌋` whenever that lies inside -/
+theorem pivot_clamped {c : SplitCond α} (h : c.validate = .ok ()) (n : Nat) :
+    c.min ≤ c.pivot n ∧ c.pivot n ≤ c.max :=
+  clampInt_mem (validate_ok h).2.2
+
+theorem pivot_unclamped {c : SplitCond α} {n : Nat}
+    (h1 : c.min ≤ Num.floorInt (Num.ofNat n * c.ratio)) (h2 : Num.floorInt (Num.ofNat n * c.ratio) ≤ c.max) :
+    c.pivot n = Num.floorInt (Num.ofNat n * c.ratio) :=
+  clampInt_of_mem h1 h2
+
+/-- with the default clamps (`min = 0`, `max = MaxInt64`) and `ratio ∈ [0,1]` the pivot is `⌊n·ratio⌋ ∈ [0, n]` -/
+theorem pivot_default (ratio : Rat) (n : Nat) (h0 : 0 ≤ ratio) (h1 : ratio ≤ 1)
+    (hn : (n : Int) ≤ maxInt64) :
+    let c : SplitCond Rat := ⟨ratio, 0, maxInt64⟩
+    c.pivot n = Rat.floor ((n : Rat) * ratio) ∧ 0 ≤ c.pivot n ∧ c.pivot n ≤ n := by
+  intro c
+  have hx0 : (0 : Rat) ≤ (n : Rat) * ratio := mul_nonneg (by exact_mod_cast Nat.zero_le n) h0
+  have hxn : (n : Rat) * ratio ≤ n := by
+    have : (0 : Rat) ≤ (n : Rat) := by exact_mod_cast Nat.zero_le n
+    nlinarith
+  have hf0 : 0 ≤ Rat.floor ((n : Rat) * ratio) := Rat.le_floor_iff.2 (by simpa using hx0)
+  have hfn : Rat.floor ((n : Rat) * ratio) ≤ n := by
+    have h1 := (Rat.floor_le ((n : Rat) * ratio)).trans hxn
+    have h2 : ((Rat.floor ((n : Rat) * ratio) : Int) : Rat) ≤ ((n : Int) : Rat) := by simpa using h1
+    exact_mod_cast h2
+  have hp : c.pivot n = Rat.floor ((n : Rat) * ratio) := by
+    have e : c.pivot n = clampInt (Rat.floor (((n : Int) : Rat) * ratio)) 0 maxInt64 := rfl
+    rw [e]
+    have : (((n : Int) : Rat)) = (n : Rat) := by simp
+    rw [this]
+    apply clampInt_of_mem hf0
+    exact le_trans hfn hn
+  exact ⟨hp, hp ▸ hf0, hp ▸ hfn⟩
+
+
+/-- the number of omitted criteria produced by the model's split satisfies the count clause of the
+    spec the driver evaluates on the implementation's output -/
+theorem split_countOk {β : Type} {c : SplitCond Rat} {l a b : List β} (hv : c.validate = .ok ())
+    (h : c.split l = .ok (a, b)) : Spec.C15.countOk c l.length a.length = true :=
+  Rdm.BiasA.split_countOk hv h
+
+/-! ## partition: omitted = first k of the ordering, kept = the rest -/
+
+/-- `SplitCriteriaByOrdering` is `take`/`drop` at the pivot: `omitted ++ kept = ordering`,
+    `|omitted| = pivot`, and the pivot lies in `[0, n]` (otherwise the code panics) -/
+theorem split_take_drop {β : Type} {c : SplitCond α} {l a b : List β} (h : c.split l = .ok (a, b)) :
+    a ++ b = l ∧ (a.length : Int) = c.pivot l.length ∧
+      a = l.take (c.pivot l.length).toNat ∧ b = l.drop (c.pivot l.length).toNat :=
+  ⟨split_append h, split_length h, (split_ok h).2.2.1, (split_ok h).2.2.2⟩
+
+/-- every one of the five ordering resolvers (and the default) returns a permutation of the current
+    criteria — for the two by-probability resolvers including the fallback branch of the roulette -/
+theorem ordering_is_permutation {eps : α} {name : String} {d : DMP α} {dr : Draws α}
+    {r : List (Crit α)} (h : orderCriteria eps name d dr = .ok r) : r.Perm d.crit :=
+  orderCriteria_perm h
+
+/-- the omission bias: omitted and kept criteria partition the current criteria (omitted ⊆ declared,
+    disjoint from kept when the ids are distinct, union = all); `|omitted|` is the clamped pivot,
+    which lies in `[min, max]` -/
+theorem omission_partition {eps : α} {c : SplitCond α} {name : String} {cur res : DMP α}
+    {d : Draws α} {omitted : List (Crit α)}
+    (h : omissionApply eps c name cur d = .ok (res, omitted)) :
+    (omitted ++ res.crit).Perm cur.crit ∧ (omitted.length : Int) = c.pivot cur.crit.length ∧
+      c.min ≤ c.pivot cur.crit.length ∧ c.pivot cur.crit.length ≤ c.max ∧
+      ∃ ordered, orderCriteria eps name cur d = .ok ordered ∧ omitted ++ res.crit = ordered := by
+  obtain ⟨hv, ordered, ho, hc⟩ := omissionApply_ok h
+  obtain ⟨hs, _, _, _⟩ := omitCriteria_ok hc
+  have hp := orderCriteria_perm ho
+  have happ := split_append hs
+  have hl := split_length hs
+  rw [hp.length_eq] at hl
+  exact ⟨happ ▸ hp, hl, (pivot_clamped hv _).1, (pivot_clamped hv _).2, ordered, ho, happ⟩
+
+/-- omitted and kept are disjoint when the criteria ids are distinct (`Criteria.Validate`) -/
+theorem omission_disjoint {eps : α} {c : SplitCond α} {name : String} {cur res : DMP α}
+    {d : Draws α} {omitted : List (Crit α)}
+    (h : omissionApply eps c name cur d = .ok (res, omitted))
+    (hnd : (cur.crit.map (·.id)).Nodup) : ∀ o ∈ omitted, ∀ k ∈ res.crit, o.id ≠ k.id := by
+  have hp := (omission_partition h).1
+  have hnd' : ((omitted ++ res.crit).map (·.id)).Nodup := (hp.map _).nodup_iff.2 hnd
+  rw [List.map_append, List.nodup_append] at hnd'
+  intro o ho k hk e
+  exact hnd'.2.2 _ (List.mem_map_of_mem ho) _ (List.mem_map_of_mem hk) e
+
+/-- on the model's output the count clause of the spec holds (the clause the driver evaluates on the
+    implementation's output) -/
+theorem omission_countOk {eps : Rat} {c : SplitCond Rat} {name : String} {cur res : DMP Rat}
+    {d : Draws Rat} {omitted : List (Crit Rat)}
+    (h : omissionApply eps c name cur d = .ok (res, omitted)) :
+    Spec.C15.countOk c cur.crit.length omitted.length = true := by
+  obtain ⟨hv, ordered, ho, hc⟩ := omissionApply_ok h
+  obtain ⟨hs, _, _, _⟩ := omitCriteria_ok hc
+  have := split_countOk hv hs
+  rwa [(orderCriteria_perm ho).length_eq] at this
+
+/-! ## every remaining structure is restricted to the kept criteria -/
+
+/-- every alternative (considered and not considered, same ids, same order) holds exactly the kept
+    criteria, with unchanged values; the method parameters are the listener's `OnCriteriaRemoved` -/
+theorem omission_restricts {eps : α} {c : SplitCond α} {name : String} {cur res : DMP α}
+    {d : Draws α} {omitted : List (Crit α)}
+    (h : omissionApply eps c name cur d = .ok (res, omitted)) :
+    List.Forall₂ (RestrictedTo res.crit) cur.co res.co ∧
+      List.Forall₂ (RestrictedTo res.crit) cur.nc res.nc ∧
+      onRemoved cur.mp res.crit = .ok res.mp := by
+  obtain ⟨_, ordered, _, hc⟩ := omissionApply_ok h
+  obtain ⟨_, hmp, hco, hnc⟩ := omitCriteria_ok hc
+  exact ⟨preserveCriteria_ok hco, preserveCriteria_ok hnc, hmp⟩
+
+/-! ## weakest first -/
+
+/-- `SortByWeights` returns a permutation of the criteria, ascending by weight, each entry carrying
+    the weight the map holds for it -/
+theorem sortByWeights_sorted_perm {cs : List (Crit Rat)} {w : KMap Rat} {r : List (WCrit Rat)}
+    (h : sortByWeights cs w = .ok r) :
+    (r.map (·.crit)).Perm cs ∧ r.Pairwise (fun a b => a.w ≤ b.w) ∧
+      ∀ x ∈ r, w.get? x.crit.id = some x.w :=
+  ⟨sortByWeights_perm h, sortByWeights_sorted h, sortByWeights_weight h⟩
+
+/-- the importance the ordering uses is the listener's: the ranking is `SortByWeights` of the
+    method's importance map (weights for majority / aspect elimination, `k` for ELECTRE III, the
+    cumulated maps for weighted sum, OWA, satisfaction, the decomposition for Choquet) -/
+theorem ranking_uses_importance_map {eps : α} {d : DMP α} {r : List (WCrit α)}
+    (h : rankAsc eps d = .ok r) :
+    ∃ w, importanceMap eps d = .ok w ∧ sortByWeights d.crit w = .ok r ∧
+      ∀ x ∈ r, w.get? x.crit.id = some x.w := by
+  rw [rankAsc_eq_sort, bind_ok] at h
+  obtain ⟨w, hw, hs⟩ := h
+  exact ⟨w, hw, hs, sortByWeights_weight hs⟩
+
+theorem importance_majority (eps : α) (d : DMP α) {w cur seed rnd dr} (h : d.mp = .majority w cur seed rnd dr) :
+    importanceMap eps d = .ok w := by unfold importanceMap; rw [h]; rfl
+theorem importance_aspect (eps : α) (d : DMP α) {fn lv seed w rnd} (h : d.mp = .aspect fn lv seed w rnd) :
+    importanceMap eps d = .ok w := by unfold importanceMap; rw [h]; rfl
+theorem importance_electre (eps : α) (d : DMP α) {ec dist} (h : d.mp = .electre ec dist) :
+    importanceMap eps d = .ok (ec.map fun p => (p.1, p.2.k)) := by unfold importanceMap; rw [h]; rfl
+
+/-- OWA: the importance of a criterion is the sum of its values over the considered alternatives -/
+theorem importance_owa (eps : α) (d : DMP α) {wc} (h : d.mp = .owa wc) (hnd : ∀ a ∈ d.co, a.vals.keys.Nodup) :
+    ∃ w, importanceMap eps d = .ok w ∧ ∀ c ∈ d.crit, w.get? c.id = some (sumOver d.co c.id id) := by
+  unfold importanceMap; rw [h]
+  exact cumulated_sum (g := fun _ v => v) (fun _ _ _ _ => rfl) hnd
+
+/-- satisfaction heuristic: the same sum -/
+theorem importance_satisfaction (eps : α) (d : DMP α) {fn lv seed cur rnd} (h : d.mp = .satisf fn lv seed cur rnd)
+    (hnd : ∀ a ∈ d.co, a.vals.keys.Nodup) :
+    ∃ w, importanceMap eps d = .ok w ∧ ∀ c ∈ d.crit, w.get? c.id = some (sumOver d.co c.id id) := by
+  unfold importanceMap; rw [h]
+  exact cumulated_sum (g := fun _ v => v) (fun _ _ _ _ => rfl) hnd
+
+/-- weighted sum: the importance of a criterion is the sum over the considered alternatives of
+    `weight × value` (every value key of a considered alternative must have a weight, else the code panics) -/
+theorem importance_weightedSum (eps : α) (d : DMP α) {wc : List (WCrit α)} (h : d.mp = .ws wc)
+    (hnd : ∀ a ∈ d.co, a.vals.keys.Nodup) (wt : String → α)
+    (hw : ∀ a ∈ d.co, ∀ kv ∈ a.vals, ∃ x, findWCrit wc kv.1 = .ok x ∧ x.w = wt kv.1) :
+    ∃ w, importanceMap eps d = .ok w ∧
+      ∀ c ∈ d.crit, w.get? c.id = some (sumOver d.co c.id fun v => wt c.id * v) := by
+  unfold importanceMap; rw [h]
+  refine cumulated_sum (g := fun k v => wt k * v) ?_ hnd
+  intro a ha kv hkv
+  obtain ⟨x, hx, hxw⟩ := hw a ha kv hkv
+  simp only [hx, ← hxw]
+  rfl
+
+/-- with ordering `weakest` (also the default) no kept criterion is less important than an omitted
+    one: the listener's ascending ranking splits into the omitted prefix and the kept suffix -/
+theorem weakest_omits_least_important {eps : Rat} {c : SplitCond Rat} {cur res : DMP Rat}
+    {d : Draws Rat} {omitted : List (Crit Rat)}
+    (h : omissionApply eps c Facts.orderingWeakest cur d = .ok (res, omitted)) :
+    ∃ ro rk, rankAsc eps cur = .ok (ro ++ rk) ∧ omitted = ro.map (·.crit) ∧
+      res.crit = rk.map (·.crit) ∧ ∀ o ∈ ro, ∀ k ∈ rk, o.w ≤ k.w := by
+  obtain ⟨_, ordered, ho, hc⟩ := omissionApply_ok h
+  obtain ⟨hs, _, _, _⟩ := omitCriteria_ok hc
+  rw [orderCriteria_weakest] at ho
+  cases hr : rankAsc eps cur with
+  | error e => rw [hr] at ho; cases ho
+  | ok ranked =>
+    rw [hr] at ho
+    have : ordered = ranked.map (·.crit) := by cases ho; rfl
+    subst this
+    obtain ⟨ra, rb, hsr, h1, h2⟩ := split_of_map (α := Rat) (β := WCrit Rat) (γ := Crit Rat) (fun x => x.crit) (c := c) (l := ranked) hs
+    refine ⟨ra, rb, ?_, h1, h2, pairwise_split (R := fun a b : WCrit Rat => a.w ≤ b.w) (rankAsc_sorted hr) hsr⟩
+    rw [split_append hsr]
+
+theorem default_is_weakest {eps : α} {c : SplitCond α} {cur : DMP α} {d : Draws α} :
+    omissionApply eps c "" cur d = omissionApply eps c Facts.orderingWeakest cur d := by
+  unfold omissionApply; rw [orderCriteria_default]
+
+/-- `strongest` is the exact reverse of `weakest` -/
+theorem strongest_is_reverse_weakest (eps : α) (d : DMP α) (dr dr' : Draws α) :
+    orderCriteria eps Facts.orderingStrongest d dr =
+      (orderCriteria eps Facts.orderingWeakest d dr').map List.reverse := by
+  rw [orderCriteria_strongest, orderCriteria_weakest]
+  cases rankAsc eps d <;> rfl
+
+/-- hence with `strongest` no omitted criterion is less important than a kept one -/
+theorem strongest_omits_most_important {eps : Rat} {c : SplitCond Rat} {cur res : DMP Rat}
+    {d : Draws Rat} {omitted : List (Crit Rat)}
+    (h : omissionApply eps c Facts.orderingStrongest cur d = .ok (res, omitted)) :
+    ∃ ro rk, (rankAsc eps cur).map List.reverse = .ok (ro ++ rk) ∧ omitted = ro.map (·.crit) ∧
+      res.crit = rk.map (·.crit) ∧ ∀ o ∈ ro, ∀ k ∈ rk, k.w ≤ o.w := by
+  obtain ⟨_, ordered, ho, hc⟩ := omissionApply_ok h
+  obtain ⟨hs, _, _, _⟩ := omitCriteria_ok hc
+  rw [orderCriteria_strongest] at ho
+  cases hr : rankAsc eps cur with
+  | error e => rw [hr] at ho; cases ho
+  | ok ranked =>
+    rw [hr] at ho
+    have : ordered = (ranked.reverse).map (·.crit) := by cases ho; simp [List.map_reverse]
+    subst this
+    obtain ⟨ra, rb, hsr, h1, h2⟩ := split_of_map (α := Rat) (β := WCrit Rat) (γ := Crit Rat) (fun x => x.crit) (c := c) (l := ranked.reverse) hs
+    have hsorted : ranked.reverse.Pairwise (fun a b => b.w ≤ a.w) :=
+      List.pairwise_reverse.2 (rankAsc_sorted hr)
+    refine ⟨ra, rb, ?_, h1, h2, pairwise_split (R := fun a b : WCrit Rat => b.w ≤ a.w) hsorted hsr⟩
+    rw [split_append hsr]; rfl
+
+/-! ## the random orderings -/
+
+/-- `strongestByProbability` is the exact reverse of `weakestByProbability` on the same seed -/
+theorem strongestByProbability_is_reverse (eps : α) (d : DMP α) (dr : Draws α) :
+    orderCriteria eps Facts.orderingStrongestByProbability d dr =
+      (orderCriteria eps Facts.orderingWeakestByProbability d dr).map List.reverse :=
+  sbp_is_reverse_wbp eps d dr
+
+/-- an unknown ordering name is rejected -/
+theorem unknown_ordering_is_rejected (eps : α) (d : DMP α) (dr : Draws α) :
+    ∃ e, orderCriteria eps "bogus" d dr = .error e := unknown_ordering_rejected eps d dr
+
+/-- one round of the roulette: the picked criterion `c` is the first whose running sum reaches
+    `u·total`, i.e. `cum(before c) < u·total ≤ cum(before c) + w̃_c` (an interval of length `w̃_c/total`
+    for `u`), and it is removed from the pool -/
+theorem byProbability_pick {l : List (WCrit α)} {rw : α} {c : WCrit α} {rest : List (WCrit α)}
+    (h : rouletteScan l Num.zero rw = some (c, rest)) :
+    ∃ pre post, l = pre ++ c :: post ∧ rest = pre ++ post ∧ rw ≤ cumW Num.zero pre + c.w ∧
+      ∀ i, i < pre.length → ¬ rw ≤ cumW Num.zero (pre.take (i + 1)) :=
+  rouletteScan_spec h
+
+/-- the fallback branch (take the last entry) is reached only when even the whole pool stays below
+    `u·total` — floating-point slack in the decremented `total`, or a generator outside `[0,1)` -/
+theorem byProbability_fallback_condition {l : List (WCrit α)} {rw : α}
+    (h : rouletteScan l Num.zero rw = none) :
+    ∀ i, i < l.length → ¬ rw ≤ cumW Num.zero (l.take (i + 1)) :=
+  rouletteScan_none h
+
+/-- the shares: `w̃ = m'/(w + dif)` with `m' > 0` and positive denominators, so a strictly less
+    important criterion owns a strictly larger share — `weakestByProbability` puts it first on a strictly
+    larger set of draws (`strongestByProbability` last) -/
+theorem byProbability_shares {ranked : List (WCrit Rat)} (hs : ranked.Pairwise (fun a b => a.w ≤ b.w)) :
+    ∃ m' dif : Rat, 0 < m' ∧ (∀ s ∈ ranked, 0 < s.w + dif) ∧
+      (rouletteWeights ranked).1 = ranked.map (fun s => ({ s with w := m' / (s.w + dif) } : WCrit Rat)) ∧
+      ∀ a ∈ ranked, ∀ b ∈ ranked, a.w < b.w → m' / (b.w + dif) < m' / (a.w + dif) := by
+  obtain ⟨m', dif, hm, hpos, hw⟩ := rouletteWeights_spec hs
+  exact ⟨m', dif, hm, hpos, hw, fun a ha b _ hab => roulette_share_antitone hm (hpos a ha) hab⟩
+
+/-! ## the decision equals the one for the reduced request (parameter level)
+
+The full statement of the property — `evaluate (state after omission) = evaluate (parse (request − omitted))`
+for all seven methods — needs the evaluation models of the other work packages and is checked on the
+real code by the metamorphic oracle `omission-reduced-problem` (harness/main/c15.go).  Proved here, for
+every input: the alternatives handed on are the restrictions (`omission_restricts`), and for weighted
+sum, OWA and the majority heuristic the commuting square `onRemoved ∘ parse = parse ∘ restrict`.
+Not proved (stated in DESIGN §5.15): the squares for Choquet, ELECTRE III, aspect elimination and
+satisfaction, and the lifting from parameters to the ranking. -/
+
+/-- weighted sum: `OnCriteriaRemoved` on the parsed parameters of the full request gives exactly the
+    parsed parameters of the request that declares only the kept criteria (same weights on them;
+    superfluous weight entries of either request are ignored) -/
+theorem reduced_problem_weightedSum_partial {all kept : List (Crit α)} {w w' : KMap α} {wc : List (WCrit α)}
+    (hz : zipWithWeights all w = .ok wc) (hnd : (all.map (·.id)).Nodup)
+    (hsub : ∀ k ∈ kept, k ∈ all) (hw : ∀ k ∈ kept, w'.get? k.id = w.get? k.id) :
+    onRemoved (.ws wc) kept = (zipWithWeights kept w').map MParams.ws :=
+  ws_reduced_commutes hz hnd hsub hw
+
+/-- … and the utility of an alternative is the same whether it is the bias's restriction or the reduced
+    request's alternative (any alternative with the same id and the same values on the weighted criteria) -/
+theorem reduced_problem_weightedSum_value {a1 a2 : Alt α} {wc : List (WCrit α)} (hid : a1.id = a2.id)
+    (h : ∀ c ∈ wc, a1.vals.get? c.crit.id = a2.vals.get? c.crit.id) :
+    weightedSum a1 wc = weightedSum a2 wc := weightedSum_congr hid h
+
+/-- OWA: the parameters after omission are the kept criteria with the reduced request's weights, and
+    `OWA` values every alternative as under the (weight-sorted) parameters the reduced request parses to -/
+theorem reduced_problem_owa_partial {all kept : List (Crit Rat)} {w w' : KMap Rat} {z : List (WCrit Rat)}
+    (hz : zipWithWeights all w = .ok z) (hnd : (all.map (·.id)).Nodup)
+    (hsub : ∀ k ∈ kept, k ∈ all) (hw : ∀ k ∈ kept, w'.get? k.id = w.get? k.id)
+    {mp : MParams Rat} (h : onRemoved (.owa (sortWCrits z)) kept = .ok mp) :
+    ∃ zk, zipWithWeights kept w' = .ok zk ∧ mp = .owa zk ∧
+      ∀ a : Alt Rat, owa a zk = owa a (sortWCrits zk) :=
+  owa_reduced_commutes hz hnd hsub hw h
+
+/-- majority heuristic: after omission the weights map holds exactly the kept criteria with the reduced
+    request's weights; current choice, seed, ordering flag and draw resolution are untouched -/
+theorem reduced_problem_majority_partial {kept : List (Crit α)} {w w' : KMap α} {cur : String} {seed : Int}
+    {rnd : Bool} {dr : String} {mp : MParams α}
+    (h : onRemoved (.majority w cur seed rnd dr) kept = .ok mp)
+    (hw : ∀ k ∈ kept, w'.get? k.id = w.get? k.id) :
+    ∃ wk, mp = .majority wk cur seed rnd dr ∧ wk.keys = kept.map (·.id) ∧
+      ∀ k ∈ kept, wk.get? k.id = w'.get? k.id :=
+  majority_reduced_commutes h hw
+
+/-! ## satisfiability of the hypotheses -/
+
+example : (⟨1/2, 0, maxInt64⟩ : SplitCond Rat).validate = .ok () := by decide +kernel
+example : (⟨1/2, 0, maxInt64⟩ : SplitCond Rat).split [1, 2, 3, 4, 5] = .ok ([1, 2], [3, 4, 5]) := by decide +kernel
+example : (⟨1, 0, 2⟩ : SplitCond Rat).split [1, 2, 3] = .ok ([1, 2], [3]) := by decide +kernel
+
+/-
+  Not proved here:
+  * the reduced-problem equivalence beyond the parameter level and for Choquet, ELECTRE III, aspect
+    elimination, satisfaction (see the section above; checked on the real code by the oracle
+    `omission-reduced-problem` for all seven methods);
+  * `Spec.C15.check (model output) = true` as one statement — proved are its count clause
+    (`omission_countOk`) and, as propositions, partition (`omission_partition`, `omission_disjoint`),
+    restriction (`omission_restricts`) and importance (`weakest_omits_least_important`,
+    `strongest_omits_most_important`);
+  * the Choquet importance (decomposed capacity contribution) as a closed formula: the ordering is
+    proved to be `SortByWeights` of the listener's map (`ranking_uses_importance_map`), the map itself is
+    tied to the Go listener bit-for-bit by the `listener-rank` / `order` stages;
+  * the frequency statement for the by-probability orderings is proved as the per-round interval
+    (`byProbability_pick`) with strictly antitone shares (`byProbability_shares`), not as a probability.
+-/
+/-- the constants and names this property depends on were re-read from the working tree on this run
+    (none fell back to its pinned value because its declaration could not be located) -/
+theorem facts_fresh : (Rdm.Facts.staleFacts.all fun n => !["orderingWeakest", "orderingStrongest", "orderingRandom", "orderingWeakestByProbability", "orderingStrongestByProbability", "wiringOrderings", "biasOmission", "choquetEps"].contains n) = true := by decide
+
 end Rdm.Props.C15
